@@ -86,6 +86,13 @@ func anticipated(x *world) []*fcase {
 			}
 		}
 	}
+	// requests that announce no body length at all
+	for _, entry := range []string{"put-object", "upload-part", "put-bucket-tagging", "delete-objects", "complete-multipart-upload", "create-bucket"} {
+		for _, cl := range []string{"absent", "absent-and-no-body"} {
+			add(entry, "http:Content-Length", cl, credValid)
+			add(entry, "http:Content-Length", cl, credBadSig)
+		}
+	}
 	// ListBuckets: buckets[len-1] with max-buckets=0
 	add("list-buckets", "q:max-buckets", "0", credValid)
 	add("list-buckets", "q:max-buckets", "0", credUser)
